@@ -9,7 +9,9 @@ EXTENDS Naturals, Sequences, FiniteSets, SequencesExt, TLC
 CONSTANTS MaxElems, SerMax        \* SerMax stands for u64::MAX
 Uris == {"u1", "u2"}              \* object URIs (rsync)
 Hashes == {"h1", "h2"}
-Datas == {"empty", "one", "bin", "big"}
+\* object contents: no octets, one, all 256 octet values, 10 kB, and "huge" = 1.5 MB (more than the 1 MB budget of an element's
+\* start tag, well within the 100 MB budget of an element with content); at most one huge object per document, first in the list
+Datas == {"empty", "one", "bin", "big", "huge"}
 Serials == {0, 1, 2, 5, SerMax - 1, SerMax}
 Auths == {"a", "A", "b"}          \* authorities of https URIs: "a" and "A" are the same host
 NoneL == 99                       \* "no limit" (Option::None)
@@ -39,9 +41,11 @@ Init == /\ kind \in {"notification", "snapshot", "delta"} /\ serial \in {0, 1, S
         /\ elems = <<>> /\ snapAuth \in Auths /\ base \in Auths /\ limit \in {NoneL, 0, 1, 2, 5}
 AddElem ==
     /\ Len(elems) < MaxElems
-    /\ \/ kind = "snapshot" /\ \E u \in Uris, d \in Datas : elems' = Append(elems, [t |-> "publish", uri |-> u, data |-> d])
+    /\ \/ kind = "snapshot" /\ \E u \in Uris, d \in Datas : (d = "huge" => elems = <<>> /\ u = "u1")
+                                /\ elems' = Append(elems, [t |-> "publish", uri |-> u, data |-> d])
        \/ kind = "delta" /\ \E u \in Uris, d \in Datas, h \in Hashes, t \in {"publish", "update", "withdraw"} :
-              elems' = Append(elems, [t |-> t, uri |-> u, data |-> IF t = "withdraw" THEN "empty" ELSE d, hash |-> h])
+              /\ (d = "huge" => elems = <<>> /\ u = "u1" /\ h = "h1" /\ t # "withdraw")
+              /\ elems' = Append(elems, [t |-> t, uri |-> u, data |-> IF t = "withdraw" THEN "empty" ELSE d, hash |-> h])
        \/ kind = "notification" /\ \E s \in Serials, a \in Auths, h \in Hashes :
               elems' = Append(elems, [t |-> "delta", serial |-> s, auth |-> a, hash |-> h])
     /\ UNCHANGED <<kind, serial, snapAuth, base, limit>>
